@@ -92,7 +92,5 @@ Theorem C05_reference_trickle_range_loads : forall (W : nat) (chunks : list byte
   forall a k, (0 <= a)%Z ->
     let '(_, loads, _, _) := take (stream nofault b a) k [] [] in
     forall c, In c loads -> exists s e, In (c, s, e) (spans b 0) /\ (s < a + k)%Z /\ (a < e)%Z.
-Proof.
-  intros W chunks HW Hne Hs Hb b. destruct (trickle_qualifies W chunks HW Hne Hs Hb) as [H1 H2]. exact (range_loads b H1 H2).
-Qed.
+Proof. exact trickle_range_loads. Qed.
 Print Assumptions C05_reference_trickle_range_loads.
